@@ -187,6 +187,69 @@ def run(m, rep, tier):
     _ae = rep.rule('X7', 'every store / effectful call made with assertions enabled is also made by the NDEBUG build (no work inside assert())', floor=1)
     check_assert_effects(m, _ae, ('array.c',))
 
+    # ---- X10: the probe is the comparison's first argument, the element its second (search and find agree) ------------
+    x10 = rep.rule('X10', 'search and find hand the comparison function (probe, element), in that order', floor=2)
+    for _nm in ('cstl_raw_array_search', 'cstl_raw_array_find'):
+        f = m.pfn(_nm)
+        if f is None:
+            x10.undecided(_nm, 'not in the model')
+            continue
+        cmps = [c for c in f.all_insts() if c.op == 'call' and c.callee is None and c.x.get('fty') == CMP_FTY]
+        bad = []
+        for c in cmps:
+            a0 = strip_bitcasts(f, c.o[0]) if isinstance(c.o[0], str) else c.o[0]
+            a1e = _elem_index(f, c.o[1]) is not None
+            a0e = _elem_index(f, c.o[0]) is not None
+            if not (isinstance(a0, str) and a0.startswith('$')) and a0e and not a1e:
+                bad.append('the comparison at %s is called with (element, probe): a comparison function that tells a key from a record by position gets them '
+                           'in swapped roles, and search no longer agrees with find' % c.loc())
+        if not cmps:
+            x10.undecided(_nm, 'no comparison call found')
+        elif bad:
+            x10.violation(_nm, '; '.join(sorted(set(bad))[:1]), floc(m, f), {})
+        else:
+            x10.ok(_nm, '%d comparison call(s): probe first, element second' % len(cmps), floc(m, f))
+
+    # ---- X11: a driver loop that hands out the work runs its full count ------------------------------------------
+    # a loop of a sort driver (it calls another raw-array routine per trip) is left only because its index reached the bound,
+    # never because two elements happened to compare equal
+    x11 = rep.rule('X11', 'the loops of a sort driver are counted loops: no exit depends on a comparison result', floor=1)
+    from ..facts import edge_atoms as _ea
+    ndrv = 0
+    for f in fns:
+        names = {g.name for g in fns}
+        loops = [b for b in f.blocks if f.in_cycle(b) and any(i.op == 'call' and i.callee in names and i.callee != f.name for i in b.insts)]
+        if not loops:
+            continue
+        ndrv += 1
+        cm = {c.ref for c in f.all_insts() if c.op == 'call' and c.callee is None and c.x.get('fty') == CMP_FTY}
+        derived = set(cm)
+        changed = True
+        while changed:
+            changed = False
+            for i in f.all_insts():
+                if i.ref not in derived and i.op in ('icmp', 'phi', 'zext', 'trunc', 'select', 'and', 'or', 'xor') and any(isinstance(o, str) and o in derived for o in i.o):
+                    derived.add(i.ref)
+                    changed = True
+        bad = []
+        for b in f.blocks:
+            if not f.in_cycle(b) or len(b.succ) < 2:
+                continue
+            t = b.term
+            cond = t.o[0] if (t is not None and t.op == 'br' and t.o) else None
+            for sx in b.succ:
+                if b in f.reachable_from(sx):
+                    continue                       # stays in the loop
+                if isinstance(cond, str) and cond in derived:
+                    bad.append('the loop can be left at %s on the result of a comparison: the remaining elements are never handed to %s'
+                               % (t.loc(), sorted(i.callee for bb in loops for i in bb.insts if i.op == 'call' and i.callee in names)[0]))
+        if bad:
+            x11.violation(f.name, '; '.join(sorted(set(bad))[:1]), floc(m, f), {})
+        else:
+            x11.ok(f.name, 'driver loop(s) left only on their counters', floc(m, f))
+    if ndrv == 0:
+        x11.ok('array.c', 'NOT DECIDED: no loop that calls another raw-array routine per trip')
+
 
 RAND_MAX = 2147483647
 
